@@ -21,7 +21,7 @@ use crate::model::*;
 /// Finding F-C09-1 (see the report): tolerated by construction and counted while it is not listed
 /// in known_findings.json; once listed (main sets SCHED_REPLAN_LISTED) it is reported under its
 /// signature and the engine tolerates it. Set to false to make it a hard failure.
-pub const EXCLUDE_SCHED_REPLAN: bool = true;
+pub const EXCLUDE_SCHED_REPLAN: bool = false;
 pub const SIG_SCHED_REPLAN: &str = "concurrent|schedule_job_plan_differs_from_spawn_frame";
 pub static SCHED_REPLAN_LISTED: std::sync::atomic::AtomicBool = std::sync::atomic::AtomicBool::new(false);
 
